@@ -195,6 +195,10 @@ class StandardRequestHandler(ControlRequestHandler):
                     handle_new_setup()
 
                 with m.State('CLEAR_FEATURE'):
+                    # Handshakes are broadcast to every endpoint; so we'll only complete the request on an ACK
+                    # that directly follows our own status-stage ZLP -- not on the ACK of another endpoint's data.
+                    awaiting_clear_ack = Signal()
+
                     # Provide an response to the STATUS stage.
                     with m.If(interface.status_requested):
 
@@ -204,12 +208,20 @@ class StandardRequestHandler(ControlRequestHandler):
                             (setup.recipient != USBRequestRecipient.ENDPOINT) | \
                             (setup.value     != USBStandardFeatures.ENDPOINT_HALT)
                         with m.If(stall_condition):
+                            # A stalled request is over; it must not clear anything later on.
                             m.d.comb += handshake_generator.stall.eq(1)
+                            m.next = 'IDLE'
                         with m.Else():
                             m.d.comb += self.send_zlp()
+                            m.d.usb  += awaiting_clear_ack.eq(1)
+
+                    # Any new token means the host moved on without ACKing our status stage.
+                    with m.Elif(interface.tokenizer.new_token):
+                        m.d.usb += awaiting_clear_ack.eq(0)
 
                     # Accept the relevant value after the packet is ACK'd...
-                    with m.If(interface.handshakes_in.ack):
+                    with m.If(interface.handshakes_in.ack & awaiting_clear_ack):
+                        m.d.usb  += awaiting_clear_ack.eq(0)
                         m.d.comb += [
                             interface.clear_endpoint_halt.enable   .eq(1),
                             interface.clear_endpoint_halt.direction.eq(setup.index[7]),
